@@ -115,6 +115,7 @@ Section Embed.
       apply geig_safe; try lia. apply safe_ok. apply project_ok.
     - (* DM *)
       apply safe_ok.
+      apply seq_ok. split; [apply diffusion_matrix_ok|].
       apply seq_ok. split; [apply eig_largest_ok; lia|].
       apply seq_ok. split; [apply blk_ok; lia|].
       apply seq_ok. split; [|apply chk_ok; lia].
@@ -132,12 +133,14 @@ Section Embed.
       apply scale_cols_ok; [lia|]. apply eig_nvals_ge. lia.
     - (* MDS *)
       apply safe_ok.
+      apply seq_ok. split; [apply distance_matrix_ok|].
       apply seq_ok. split; [apply eig_largest_ok; lia|].
       apply scale_cols_ok; [lia|]. apply eig_nvals_ge. lia.
     - (* LMDS *)
       apply andb_true_iff in H21. destruct H21 as [A B]. apply Z.leb_le in A, B.
       apply safe_ok.
       apply seq_ok. split; [apply select_landmarks_ok; lia|].
+      apply seq_ok. split; [apply landmark_distance_matrix_ok; apply idx_wf_firstn; exact Hpw|].
       apply seq_ok. split; [apply eig_largest_ok; lia|].
       apply seq_ok. split; [apply scale_cols_ok; [lia|apply eig_nvals_ge; lia]|].
       apply triangulate_ok; [apply idx_wf_firstn; exact Hpw|lia|apply eig_nvals_ge; lia].
@@ -162,15 +165,17 @@ Section Embed.
         intros _. split; [exact W|split; [exact Wrs|lia]].
     - (* KPCA *)
       apply safe_ok.
+      apply seq_ok. split; [apply centered_kernel_matrix_ok|].
       apply seq_ok. split; [apply eig_largest_ok; lia|].
       apply scale_cols_ok; [lia|]. apply eig_nvals_ge. lia.
     - (* PCA *)
       apply andb_true_iff in H21. destruct H21 as [A B]. apply Z.leb_le in A, B.
-      apply safe_ok. apply seq_ok. split; [apply eig_largest_ok; lia|apply project_ok].
-    - (* RP *) apply safe_ok. apply project_ok.
-    - (* FA *) apply safe_ok. apply project_ok.
+      apply safe_ok. apply seq_ok. split; [apply eig_largest_ok; lia|apply project_full_ok].
+    - (* RP *) apply safe_ok. apply seq_ok. split; [apply gaussian_projection_matrix_ok|apply project_full_ok].
+    - (* FA *) apply safe_ok. apply factor_analysis_ok.
     - (* TSNE *)
       specialize (HK eq_refl Hsc). apply safe_ok.
+      apply seq_ok. split; [apply tsne_buffers_ok; lia|].
       apply seq_ok. split.
       + destruct (c_exact c); [reflexivity|apply tsne_bh_rows_ok; lia].
       + rewrite V12. apply tsne_map_ok; try lia.
